@@ -19,7 +19,8 @@ PURE_ATTRS = {'getvalue', 'endswith', 'startswith', 'with_name', 'with_suffix', 
               'append', 'get', 'setdefault', 'items', 'values', 'keys', 'format', 'strftime', 'seek', 'extend'}
 COMPUTE = {'RedlineEngine', 'extract_text_from_stream', 'generate_edits_from_text', '_apply_edits_to_markdown', 'apply_edits_to_markdown',
            'apply_edits', 'apply_review_actions', 'accept_all_revisions', 'save_to_stream', 'DocumentEdit', 'loads', 'load', 'dumps',
-           'which', 'getuser', 'now', 'cwd', 'resolve', '_get_claude_config_path', 'model_dump', 'system', 'home'}
+           'which', 'getuser', 'now', 'cwd', 'resolve', '_get_claude_config_path', 'model_dump', 'system', 'home',
+           'encode'}      # str.encode: no effect, may raise (UnicodeEncodeError)
 
 class Fail(Exception):
     pass
@@ -49,14 +50,19 @@ class X:
                 if f and sym(f[0].value) == 'sys.stderr': return
                 out.append(('Compute', 'print') if s.cli else ('Stdout',))
             elif n == 'open':
-                mode = sym(e.args[1]) if len(e.args) > 1 else "'r'"
+                if any(k.arg not in ('encoding', 'newline', 'errors', 'mode') for k in e.keywords): raise Fail('open() with keyword %s: semantics not modelled' % [k.arg for k in e.keywords])
+                km = [k for k in e.keywords if k.arg == 'mode']
+                mode = sym(e.args[1]) if len(e.args) > 1 else (sym(km[0].value) if km else "'r'")
                 if any(c in mode for c in 'wax+'): out.append(('OpenW', sym(e.args[0])))
                 else: out.append(('Read', 'open ' + sym(e.args[0])))
             elif n == 'write': out.append(('Write', sym(e.func.value)))
             elif n == 'read': out.append(('Read', 'read'))
             elif n == 'dump': out.append(('Write', sym(e.args[1])))
             elif n == 'exit': out.append(('Exit', sym(e.args[0]) if e.args else '0'))
-            elif n == 'copy2': out.append(('Copy', sym(e.args[0]), sym(e.args[1])))
+            elif n == 'copy2':
+                # the Copy effect stands for shutil.copy2(src, dst): the CONTENT of src (links followed) becomes a new regular file
+                if e.keywords or len(e.args) != 2: raise Fail('copy2 with other than two positional arguments (%s): semantics not modelled' % [k.arg for k in e.keywords])
+                out.append(('Copy', sym(e.args[0]), sym(e.args[1])))
             elif n == 'mkdir': out.append(('Compute', 'mkdir'))
             elif n == 'exists': out.append(('Exists', sym(e.func.value)))
             elif n in s.inline:
